@@ -77,6 +77,13 @@ def step (line : String) : String :=
                     toHex (fileBytes calls) ++ " " ++ showCalls calls
       | none => "bad-op"
     | _, _, _ => "bad-op"
+  | ["write-faults", cols, mx, codec, ops, tab] =>
+    match parseCols cols, mx.toNat?, codec.toNat? with
+    | some cols, some mx, some codec =>
+      match parseOps cols ops with
+      | some ops => showFaultRuns (runWriter cols mx (parseCodec codec tab) ops)
+      | none => "bad-op"
+    | _, _, _ => "bad-op"
   | ["read", cols, file, tab] =>
     match parseCols cols with
     | some cols => readAll cols (parseDecomp tab) (unhex file)
